@@ -20,6 +20,7 @@ import (
 // is checked again. With VerifBlobMemoryCacheAccounting (base case from the
 // empty cache) this covers histories of any length over these universes.
 func VerifBlobMemoryCacheStep() {
+	verif.Option("solver_bv_tactic", 1) // 64-bit sums of symbolic sizes: the incremental core times out on a few of them
 	g := &verifGhost{max: verif.Uint64("max_size"), entries: map[string]int{}, created: map[string]time.Time{}}
 	c := NewBlobMemoryCache(BlobMemoryCacheConfig{MaxSize: g.max}, tally.NoopScope)
 	for _, name := range verifNames {
